@@ -6,7 +6,7 @@ fn get(st: &AppCounters, k: u32) -> Option<i32> {
     st.df_count.get(&k).copied()
 }
 
-// @harness props=C16 tier=quick cap=600
+// @harness props=C16,C01 tier=quick cap=600
 // one counting step from an arbitrary counter state (<= 3 distinct DF entries with arbitrary
 // counts): the entry of `df` becomes old+1 (1 when absent), every other entry is unchanged
 #[cfg_attr(kani, kani::proof)]
@@ -49,7 +49,7 @@ fn c16_count_step() {
     vassert!(st.df_count.len() == n_before + if old.is_none() { 1 } else { 0 }, "C16: number of counted formats wrong");
 }
 
-// @harness props=C16 tier=quick cap=600
+// @harness props=C16,C01 tier=quick cap=600
 // three counting steps from the empty state with arbitrary DFs: every count equals the number of
 // times its DF was counted, and iteration (the printed order) is ascending in DF
 #[cfg_attr(kani, kani::proof)]
